@@ -30,16 +30,40 @@ func Judge(rep *mbt.Report, in corpus.Input, r *rt.Result) {
 		return // not a valid LLVM module: outside the quantifier (counted by the caller)
 	}
 	rep.Programs++
+	where := in.Construct
+	if where == "" {
+		where = "corpus"
+	}
+	if in.Unrepresentable {
+		// the IR has no way to hold the construct: an error is required
+		switch {
+		case r.ParsePanic != "":
+			rep.Disagreements++
+			rep.Fail(mbt.Failure{Signature: "C01|unrepresentable-construct-panics|" + rt.NormalizeMessage(r.ParsePanic), What: fmt.Sprintf("a construct the IR cannot represent crashes the parser instead of being reported as an error (%s): %s", in.Name, mbt.Truncate(r.ParsePanic, 300)), Case: cs})
+			return
+		case r.Mod == nil:
+			return // reported as an error: as required
+		}
+		// accepted after all: then it must be preserved (judged below)
+	}
 	switch {
 	case r.ParsePanic != "":
 		rep.Disagreements++
 		rep.Fail(mbt.Failure{Signature: "C01|parse-panic|" + rt.NormalizeMessage(r.ParsePanic), What: fmt.Sprintf("parser crashes on a valid module (%s): %s", in.Name, mbt.Truncate(r.ParsePanic, 300)), Case: cs})
 	case r.Mod == nil:
 		rep.Disagreements++
-		rep.Fail(mbt.Failure{Signature: "C01|valid-module-rejected|" + rt.NormalizeMessage(r.ParseErr), What: fmt.Sprintf("parser rejects a module LLVM accepts (%s): %s", in.Name, mbt.Truncate(r.ParseErr, 300)), Case: cs})
+		msg := rt.NormalizeMessage(r.ParseErr)
+		if strings.Contains(r.ParseErr, "into an AST: syntax error") {
+			msg = "grammar (llir/ll) syntax error|" + where
+		}
+		rep.Fail(mbt.Failure{Signature: "C01|valid-module-rejected|" + msg, What: fmt.Sprintf("parser rejects a module LLVM accepts (%s): %s", in.Name, mbt.Truncate(r.ParseErr, 300)), Case: cs})
 	case r.PrintPanic != "":
 		rep.Disagreements++
 		rep.Fail(mbt.Failure{Signature: "C01|print-panic|" + rt.NormalizeMessage(r.PrintPanic), What: fmt.Sprintf("printing the parsed module crashes (%s): %s", in.Name, mbt.Truncate(r.PrintPanic, 300)), Case: cs})
+	case !r.OutputValid && (strings.Contains(r.OutputDiag, "Stack dump") || strings.Contains(r.OutputDiag, "PLEASE submit a bug report")):
+		// llvm-as itself crashes on the printed text: LLVM cannot arbitrate (counted, not judged)
+		n, _ := rep.Extra["llvm_crashes_on_output"].(int)
+		rep.Extra["llvm_crashes_on_output"] = n + 1
 	case !r.OutputValid:
 		rep.Disagreements++
 		rep.Fail(mbt.Failure{Signature: "C01|output-invalid|" + rt.NormalizeMessage(llvmDiag(r.OutputDiag)), What: fmt.Sprintf("printed text is not valid LLVM (%s): %s", in.Name, mbt.Truncate(r.OutputDiag, 400)), Case: cs})
